@@ -9,11 +9,11 @@ from ..model import sem, gen, flat, render
 PROPERTY = "C16"
 LEVEL = "fault_enumeration"
 RULE = ("cases = a generated class (random fields a,b, non-random c, a fixed-size random list with a foreach block, a dist, "
-        "a rand_attr sub-object, callbacks that raise when armed) and a generated history of constructions and "
+        "a random-size list named as a whole by unique(), a rand_attr sub-object, callbacks that raise when armed) and a generated history of constructions and "
         "randomizations with ONE fault injected at a generated position: (a) an exception raised by user code inside a "
         "constraint body during construction at statement k, also inside if_then / implies / foreach bodies; (b) inside a "
         "randomize_with body before / after statement k; (c) in pre_randomize / post_randomize of the top object or the "
-        "sub-object; (d) a call made unsatisfiable (SolveFailure) with foreach and dist rewrites active; (e) a failing call made "
+        "sub-object; (d) a call made unsatisfiable (SolveFailure) with foreach and dist rewrites active, or aborted by the library for contradicting inline solve_order directives after the model was rewritten for the call; (e) a failing call made "
         "from pre_randomize of the enclosing call on its random sub-object and handled there (own shard, judged against the "
         "enumerated solutions and the callback counts of the enclosing call).  Oracle 1: right "
         "after the faulted call the six process-wide construction stacks are empty, no model object reachable from the "
@@ -48,6 +48,7 @@ class %(name)s(object):
         self.b = vsc.rand_bit_t(3)
         self.c = vsc.bit_t(3)
         self.l = vsc.rand_list_t(vsc.bit_t(3), sz=3)
+        self.r = vsc.randsz_list_t(vsc.bit_t(3))       # grown for solving, named as a whole by unique()
         self.s = vsc.rand_attr(S())
         self.boom_pre = False
         self.boom_post = False
@@ -66,6 +67,9 @@ class %(name)s(object):
             self.l[i] < 6
         vsc.dist(self.b, [vsc.weight(0, 1), vsc.weight(vsc.rng(2, 5), 3), vsc.weight(7, 1)])
         self.s.x != self.a
+        self.r.size <= 3
+        vsc.unique(self.r)
+        vsc.unique(self.l)
 '''
 
 FIELDS = [
@@ -74,7 +78,8 @@ FIELDS = [
     {"name": "c", "kind": "bit", "w": 3, "signed": False, "rand": False, "init": 2},
 ]
 FAULTS = ["ctor_body", "ctor_if", "ctor_implies", "ctor_foreach", "inline_before", "inline_after", "inline_nested",
-          "pre_top", "post_top", "pre_sub", "post_sub", "unsat", "unsat_inline_foreach", "unsat_sfdebug", "unsat_sfdebug_plain"]
+          "pre_top", "post_top", "pre_sub", "post_sub", "unsat", "unsat_inline_foreach", "unsat_sfdebug", "unsat_sfdebug_plain",
+          "cyclic_order", "unsat_randsz"]
 
 
 @hyp.composite
@@ -176,7 +181,7 @@ class Session:
 
     def state(self, o):
         try:
-            return (int(o.a), int(o.b), int(o.c), tuple(int(x) for x in o.l), int(o.s.x))
+            return (int(o.a), int(o.b), int(o.c), tuple(int(x) for x in o.l), int(o.s.x), len(o.r), tuple(int(x) for x in o.r))
         except Exception as e:
             return ("unreadable", type(e).__name__)
 
@@ -223,6 +228,10 @@ class Session:
         o = self.objs[-1] if self.objs else None
         raised = None
         try:
+            r_before = [int(x) for x in o.r] if o is not None else None
+        except Exception:
+            r_before = None
+        try:
             if kind.startswith("ctor"):
                 src = class_source("Tbad", self.case["c0"], f["k"], kind)
                 src = src[src.index("@vsc.randobj\nclass Tbad"):]
@@ -261,6 +270,16 @@ class Session:
                                                           ["bin", "<", ["bin", "-", ["f", "a"], ["slit", -7, 5]], ["ps", "a", 1, 0]]]],
                                                 ["expr", ["bin", ">", ["f", "a"], ["lit", 6]]], ["expr", ["bin", "<", ["f", "a"], ["lit", 3]]]],
                                    "randomize_with", kw={"solve_fail_debug": 1})
+            elif kind == "cyclic_order":
+                # a user error that the library reports after it has rewritten the model for the call: contradicting
+                # ordering directives (toposort raises CircularDependencyError)
+                o.set_randstate(flat.mk_randstate(f["seed"]))
+                render.call_inline(self.ns, o, [["order", ["a"], ["b"]], ["order", ["b"], ["a"]],
+                                                ["expr", ["bin", "!=", ["f", "b"], ["f", "a"]]]], "randomize_with")
+            elif kind == "unsat_randsz":
+                # the failure is in the rand set of the random-size list (grown for solving, its size named through unique())
+                o.set_randstate(flat.mk_randstate(f["seed"]))
+                render.call_inline(self.ns, o, [["foreach", "r", None, "e", [["expr", ["bin", ">", ["it", "e"], ["lit", 7]]]]]], "randomize_with")
             elif kind == "unsat":
                 o.set_randstate(flat.mk_randstate(f["seed"]))
                 render.call_inline(self.ns, o, [["expr", ["bin", "<", ["f", "a"], ["lit", 2]]], ["expr", ["bin", ">", ["f", "a"], ["lit", 5]]]],
@@ -278,6 +297,15 @@ class Session:
         if busy:
             self.oracle1.append(("construction_state_not_idle", "process-wide construction state left non-empty after the call ended",
                                  "after %s (%s): %s" % (kind, raised, busy)))
+        if raised is not None and r_before is not None and not kind.startswith(("post_", "ctor")):
+            # a call that failed before anything was solved leaves the random-size list as it was
+            try:
+                r_now = (len(o.r), o.r.size, [int(x) for x in o.r])
+            except Exception as e_:
+                r_now = repr(e_)
+            if r_now != (len(r_before), len(r_before), r_before) and kind not in ("pre_top", "pre_sub", "inline_before", "inline_after", "inline_nested"):
+                self.oracle1.append(("list_left_grown", "a random-size list keeps the elements it was grown by for the failed call",
+                                     "after %s (%s): list r held %s, now (len, size, elements) = %s" % (kind, raised, r_before, r_now)))
         for ob in self.objs:
             try:
                 m = ob.get_model()
@@ -306,6 +334,8 @@ class Session:
                 o.s.x = 1
                 for j in range(len(o.l)):
                     o.l[j] = j
+                for j in range(len(o.r)):       # (same values; the LENGTH is whatever the session left)
+                    o.r[j] = j
             except Exception:
                 pass
 
